@@ -778,6 +778,8 @@ func init() {
 			emit("accept-var", c20VarReq(v), "ok")
 		}
 		stats["exported-variable-not-physical(skipped)"] = nonPhys
+		// ---- 9b. reg.Allocation on partial allocations (c20allocn.go)
+		c20AllocnGenerate(r, *f.n/4, all, emit, stats)
 		// ---- 10 + 11. LAST: the process is used.  11 (c20proc.go): compiles, allocators, caller-mutated accessor results, … with
 		// the exhaustive table / API stream re-evaluated after every step; 10 (c20ctx.go): histories of calls on a build.Context
 		// (methods and package-level functions): every register it hands out, before / between / after functions, with every
@@ -879,6 +881,8 @@ func c20Replay(all []reg.Physical, repo, dir string, ts []string, emit func(kind
 	switch ts[0] {
 	case "ctxh", "accept-ctxfresh":
 		c20CtxReplay(ts, emit)
+	case "alook", "accept-alookup", "amerge":
+		c20AllocnReplay(ts, emit)
 	case "tblh", "after", "accept-after":
 		c20ProcReplay(ts, emit, map[string]int{})
 	case "row":
